@@ -1,6 +1,7 @@
 import PgVerif.Proofs.LRSound
 import PgVerif.Proofs.Chart
 import PgVerif.Proofs.LRDet
+import PgVerif.Proofs.LRUnamb
 import PgVerif.Model.Decode
 /-!
 # C04 — LR parser is sound always (and exact when its table is deterministic)
@@ -15,8 +16,13 @@ at most one action and whose expected terminals are never lexically ambiguous on
 the input (`detTableB`, `lexDetB`: decidable, evaluated on every deterministic
 strategy-free table the implementation builds and on every input), the driver
 accepts **exactly** the sentences — for every such table and input, with no bound
-on sizes. That the accepted tree is the only parse tree (unambiguity) and equals
-GLR's single tree stays an oracle comparison on the explored scope.
+on sizes — its tree has the shape of every parse tree of the input
+(`C04_parser_tree_is_the_parse_tree`) and therefore any two parse trees have the same
+shape: the grammar is unambiguous on such inputs (`C04_unambiguous_when_deterministic`;
+"shape" = the tree without the spans recorded in interior nodes, which the
+derivation relation leaves free and C08 examines). That GLR returns exactly that
+one tree stays an oracle comparison on the explored scope (the GLR driver is
+modelled but nothing is proved about the model).
 -/
 namespace Pg
 
@@ -84,6 +90,25 @@ theorem C04_exact_when_deterministic (g : Grammar) (T : Table) (inp : Input)
   · exact C04_complete_when_deterministic g T inp I F hv hT hL hfin hin lexDis
   · rintro ⟨fuel, t, e, p, h⟩
     exact ⟨t, C04_sound g T inp hw lexDis fuel t e p h⟩
+
+/-- **The driver's tree is the parse tree**: for every parse tree of the input the driver returns a
+tree of the same shape. -/
+theorem C04_parser_tree_is_the_parse_tree (g : Grammar) (T : Table) (inp : Input)
+    (I : Nat → List LRV.VItem) (F : LRV.FirstData) (hv : LRV.lrComplete g T I F = true)
+    (hT : detTableB T = true) (hL : lexDetB T inp = true)
+    (hfin : ∀ s, T.n ≤ s → T.cells s = [] ∧ T.finish s = []) (hin : InputOK inp)
+    (lexDis : Bool) (t : Tree) (h : IsParseOf g inp t) :
+    ∃ (fuel : Nat) (t' : Tree) (e p : Nat),
+      parseLR g T inp { consumeInput := true, lexDis := lexDis } fuel = .ok t' e p ∧ t'.shape = t.shape :=
+  det_complete_shape hv (detOK_of_bool hT hL hfin hin) hin _ rfl t h
+
+/-- **Unambiguity when deterministic**: any two parse trees of the input have the same shape. -/
+theorem C04_unambiguous_when_deterministic (g : Grammar) (T : Table) (inp : Input)
+    (I : Nat → List LRV.VItem) (F : LRV.FirstData) (hv : LRV.lrComplete g T I F = true)
+    (hT : detTableB T = true) (hL : lexDetB T inp = true)
+    (hfin : ∀ s, T.n ≤ s → T.cells s = [] ∧ T.finish s = []) (hin : InputOK inp)
+    (t1 t2 : Tree) (h1 : IsParseOf g inp t1) (h2 : IsParseOf g inp t2) : t1.shape = t2.shape :=
+  unambiguous hv (detOK_of_bool hT hL hfin hin) hin t1 t2 h1 h2
 
 /-- The same for the tables and inputs the compiled driver decodes from the implementation's dumps:
 the side conditions on the data (`InputOK`, table empty beyond its states) are theorems about the
